@@ -12,7 +12,9 @@ TRUSTED_BASE = [
     "Lean 4.33.0 kernel; axioms limited to propext, Classical.choice, Quot.sound (audited with #print axioms on every theorem of the property file); no sorry/admit/native_decide/bv_decide/own axioms",
     "hand-written Lean model of jub0bs/cors (lean/CorsVerif/Model); tied to /repo by (a) Gen/Facts.lean regenerated from the working tree by harness/extract and (b) the differential correspondence harness (harness/inject, built into /repo's module with go build -overlay) whose coverage is reported below",
     "library behaviour modelled, not verified: x/net idna (oracle for xn-- labels, plain-ASCII rule modelled), publicsuffix (oracle), net/netip (IPv4 modelled, IPv6 oracle), httpguts token table, net/http.Header Add/Set, maps.Copy, errors.Join, sync.RWMutex, Go memory model, range-over-func",
-    "the Lean compiler for the native driver (used for the tie only, not for any theorem)",
+    "specifications written by hand from the documentation and the standards, trusted as readings: Spec/Denote (what a pattern denotes), Spec/Prohibitions (what a Config may not be), Spec/ACRH (which header lists are approved), Spec/Browser (CORS-preflight fetch, CORS check, PNA), Spec/Grammar (documented pattern grammar), Spec/Fetch (name tables)",
+    "pinned/Facts.lean: the facts of the verified tree; when the regenerated facts differ, the suites are also compared against the model built from the pinned facts",
+    "the Lean compiler for the native driver (used for the tie only, not for any theorem); the Python runner and judges (tools/) that project, compare and classify outputs",
 ]
 
 
